@@ -61,6 +61,15 @@ CLAIMED = {
                      "SQLITE_STATIC binds outlive the step; buffer primitives clamp. Equality of round-tripped values is not decided.",
                 note=TB + "; SQLite as parser of the embedded SQL",
                 tech="writer/reader table extraction from macro expansions in the AST + agreement checks"),
+    "C08": dict(level="other", ref="5 C08",
+                text="Necessary conditions of buffer-boundary independence decided on the scanner's code: may-dataflow over every function "
+                     "of parser.c showing that no local derived from the scan window is read after a (transitive) call to "
+                     "get_more_chars without being re-derived; every end-of-line branch of the scanners performs the line accounting "
+                     "or un-reads the character, and the copies of the accounting agree; get_more_chars re-bases all window pointers "
+                     "when it moves data and decrements the character count once per folded CR LF pair. Value-level arithmetic of the "
+                     "folding and alignment independence in general are not decided.",
+                note=TB + "; functions that may refill = transitive callers of get_more_chars within parser.c",
+                tech="staleness may-dataflow + must-pass-through / pairing queries on CFGs"),
     "C09": dict(level="other", ref="5 C09",
                 text="Who-may-reach rule over the resolved program: every string reaching a key position (a `name` column of an embedded "
                      "statement, or a uthash key) is normaliser output, a field whose stores are all normaliser output, or an "
